@@ -256,6 +256,11 @@ func (dsp *DataStreamProcessor) AnalyzeData(records []*DataRecord) {
 		N := float64(len(rec.data) - rec.presamples)
 		rec.pulseAverage = sum/N - ptm
 		meanSquare := sum2/N - 2*ptm*(sum/N) + ptm*ptm
+		if meanSquare < 0 {
+			// the three terms cancel almost completely for a nearly constant record; rounding can
+			// then leave a tiny negative value, whose square root would be NaN
+			meanSquare = 0
+		}
 		rec.pulseRMS = math.Sqrt(meanSquare)
 		if dsp.HasProjectors() {
 			rows, cols := dsp.projectors.Dims()
